@@ -20,6 +20,10 @@ def build_roots():
             add('r_w2v_%s_%s' % (fl, L), 'pub fn r_w2v_%s_%s(p: Vec3<f32>, mv: %s, pr: %s, vp: Rect<f32, f32>) -> Vec3<f32> { %s4::world_to_viewport_%s(p, mv, pr, vp) }' % (fl, L, M, M, L, fl), kind='w2v', fl=fl, l=L)
             add('r_v2w_%s_%s' % (fl, L), 'pub fn r_v2w_%s_%s(r: Vec3<f32>, mv: %s, pr: %s, vp: Rect<f32, f32>) -> Vec3<f32> { %s4::viewport_to_world_%s(r, mv, pr, vp) }' % (fl, L, M, M, L, fl), opaque=['*Mat4*::inverted'], kind='v2w', fl=fl, l=L)
             add('r_rt_%s_%s' % (fl, L), 'pub fn r_rt_%s_%s(p: Vec3<f32>, pr: %s, vp: Rect<f32, f32>) -> Vec3<f32> { %s4::viewport_to_world_%s(%s4::world_to_viewport_%s(p, %s4::identity(), pr, vp), %s4::identity(), pr, vp) }' % (fl, L, M, L, fl, L, fl, L, L), kind='rt', fl=fl, l=L, max_paths=8)
+        # the point parameter is `impl Into<Vec3>`: the (Vec2, depth) tuple form (cursor position + depth) must denote the same point
+        for fl in ('no', 'zo'):
+            add('r_w2vt_%s_%s' % (fl, L), 'pub fn r_w2vt_%s_%s(p: (Vec2<f32>, f32), mv: %s, pr: %s, vp: Rect<f32, f32>) -> Vec3<f32> { %s4::world_to_viewport_%s(p, mv, pr, vp) }' % (fl, L, M, M, L, fl), kind='w2v', fl=fl, l=L, tup=True)
+            add('r_v2wt_%s_%s' % (fl, L), 'pub fn r_v2wt_%s_%s(r: (Vec2<f32>, f32), mv: %s, pr: %s, vp: Rect<f32, f32>) -> Vec3<f32> { %s4::viewport_to_world_%s(r, mv, pr, vp) }' % (fl, L, M, M, L, fl), opaque=['*Mat4*::inverted'], kind='v2w', fl=fl, l=L, tup=True)
         add('r_pick_%s' % L, 'pub fn r_pick_%s(c: Vec2<f32>, d: Vec2<f32>, vp: Rect<f32, f32>) -> %s { %s4::picking_region(c, d, vp) }' % (L, M, L), kind='pick', l=L)
     return roots, meta
 
@@ -41,11 +45,12 @@ def run(ctx):
         done += 1
         k = m['kind']; key = 'c10/' + r.name[2:]; w = r.code; L = m['l']
         vx, vy, vw, vh = (sym('a3.' + n) for n in 'xywh') if k in ('w2v', 'v2w') else (sym('a2.' + n) for n in 'xywh')
+        PX = [sym('a0.0.x'), sym('a0.0.y'), sym('a0.1')] if m.get('tup') else [sym('a0.x'), sym('a0.y'), sym('a0.z')]
         try:
             if k == 'w2v':
                 p = rs.only()
                 MV = msyms('a1', L, 4); P = msyms('a2', L, 4)
-                pt = [sym('a0.x'), sym('a0.y'), sym('a0.z'), C(1)]
+                pt = PX + [C(1)]
                 clip = matvec(P, matvec(MV, pt))
                 ndc = [c / clip[3] for c in clip[:3]]
                 half = C(1) / C(2)
@@ -64,7 +69,7 @@ def run(ctx):
                 name = calls[0][1]
                 inv_l = [fn('ret:%d' % i, fn('call:' + name, *args)) for i in range(16)]
                 Inv = mgrid(inv_l, L, 4)
-                rx, ry, rz = sym('a0.x'), sym('a0.y'), sym('a0.z')
+                rx, ry, rz = PX
                 n = [C(2) * (rx - vx) / vw - C(1), C(2) * (ry - vy) / vh - C(1), (C(2) * rz - C(1)) if m['fl'] == 'no' else rz, C(1)]
                 o = matvec(Inv, n)
                 vec_eq(ctx, key, p.ret, [o[i] / o[3] for i in range(3)], 'alg=: unprojection = homogenise(Inverse * n), n = inverse viewport map of the window position (depth 2z-1 resp. z)', w)
@@ -96,6 +101,6 @@ def run(ctx):
                         ctx.same(ck + '/x', o[0] / o[3], sx, 'alg=: the picking matrix maps the window rectangle (in clip coordinates) onto the clip square: x = -1/+1', w)
                         ctx.same(ck + '/y', o[1] / o[3], sy, 'alg=: the picking matrix maps the window rectangle (in clip coordinates) onto the clip square: y = -1/+1', w)
                         ctx.same(ck + '/z', o[2] / o[3], z, 'alg=: depth unchanged', w)
-        except AssertionError as e:
+        except (AssertionError, KeyError, ValueError, TypeError, IndexError, ZeroDivisionError, AttributeError) as e:
             ctx.ob(key + '/paths', False, 'path structure', w, 'analysable', str(e))
     ctx.floor('roots analysed', done, len(roots))
